@@ -349,7 +349,9 @@ def codec(chk: Check):
     for n in ast.walk(rctx.func):
         if isinstance(n, ast.Assign) and isinstance(n.targets[0], ast.Subscript):
             t = R.expr(rctx, n.value, rctx.cfg.node_of[n])
-            okstore = t[0] == "call" and t[1].endswith("EnvelopeAttribute") and len(t[2]) == 3
+            # (EnvelopeAttribute is a NamedTuple: its instances are represented as the tuple of their fields)
+            okstore = (t[0] == "call" and t[1].endswith("EnvelopeAttribute") and len(t[2]) == 3) or \
+                (t[0] == "tuple" and len(t[1]) == 3 and str(R._namedtuple_of(t) or "").endswith("EnvelopeAttribute"))
     chk.decide(okstore, "K-CODEC", "attribute-record", rctx.func, "attributes[name] = EnvelopeAttribute(type, flag, value)")
 
 
